@@ -594,6 +594,10 @@ def run_msg_pipeline(res, prop, props_v, checker, clauses, plan, iso=False, corp
     res.cov["translator"].update({"files": st, "shapes": {k: v for k, v in shapes.items() if k.startswith(("msgstorage/", "storage/"))}})
     pr = vlib.coq_check_props(props_v, runners=[RUNNER])
     res.add_proof(pr, checker)
+    if res.tier == "thorough" and pr["ok"]:
+        probs = thorough_extras(res, props_v)
+        if probs:
+            pr["ok"], pr["failed_file"], pr["error"] = False, props_v, "; ".join(probs)
     exe = build()
     work = vlib.workdir(tag)
     try:
@@ -706,3 +710,29 @@ def replay_msg(r):
     for f in fl:
         print("judge:", f["clause"], f["what"], "triggers:", f["triggers"])
     return 1 if new_fails(fl) else 0
+
+
+def thorough_extras(res, props_v):
+    """thorough tier: forbidden-word grep over the cone and coqchk of the property module; returns a list of problems"""
+    problems = []
+    cone = vlib.coq_cone(props_v)
+    import re
+    for v in cone:
+        pth = os.path.join(vlib.COQ, v)
+        if not os.path.exists(pth):
+            continue
+        for i, line in enumerate(open(pth), 1):
+            l = re.sub(r"\(\*.*?\*\)", "", line)
+            if vlib.FORBIDDEN.search(l):
+                problems.append("forbidden word in %s:%d: %s" % (v, i, line.strip()[:120]))
+    mod = "GMQ." + props_v[:-2].replace("/", ".")
+    with vlib.Lock("coq"):
+        p = vlib.sh(["timeout", "1500", "coqchk", "-silent", "-o", "-Q", ".", "GMQ", mod], cwd=vlib.COQ, timeout=1600)
+    out = p.stdout + p.stderr
+    res.cov.setdefault("coqchk", {})[props_v] = "ok" if p.returncode == 0 else out[-600:]
+    if p.returncode != 0:
+        problems.append("coqchk %s failed: %s" % (mod, out[-300:]))
+    else:
+        m = re.search(r"Axioms:\s*(.*?)\n\s*\n", out, re.S)
+        res.cov["coqchk"][props_v + ":axioms"] = (m.group(1).strip() if m else "")[:300]
+    return problems
